@@ -42,6 +42,24 @@ v('c07-second-writer','R-C07.3','evolve/purge_app_task.py',"""from django_evolut
 ""","""from django_evolution.mutators import AppMutator
 from django_evolution.models import Evolution
 """,edits=[{'file':P+'evolve/purge_app_task.py','old':"from django_evolution.mutators import AppMutator\n",'new':"from django_evolution.mutators import AppMutator\nfrom django_evolution.models import Evolution\n"},{'file':P+'evolve/purge_app_task.py','old':"        assert sql_executor\n\n        if self.evolution_required:",'new':"        assert sql_executor\n\n        Evolution.objects.filter(app_label=self.app_label).delete()\n\n        if self.evolution_required:"}],note='rows deleted outside the single save point')
+v('c07-task-failure-logged','R-C07.6','evolve/base.py',"""            for task in tasks:
+                task.execute(sql_executor=sql_executor, **kwargs)""","""            for task in tasks:
+                try:
+                    task.execute(sql_executor=sql_executor, **kwargs)
+                except Exception:
+                    import logging
+                    logging.exception('Task %s failed', task)""",note='a failing purge task is logged and the run goes on to record success')
+v('c07-batch-failure-continues','R-C07.6','evolve/evolve_app_task.py',"""                        if task_sql:
+                            task.execute(sql_executor=sql_executor,
+                                         sql=task_sql,
+                                         **kwargs)""","""                        if task_sql:
+                            try:
+                                task.execute(sql_executor=sql_executor,
+                                             sql=task_sql,
+                                             **kwargs)
+                            except EvolutionExecutionError as e:
+                                logger.error('%s', e)
+                                raise""",expect='silent',note='re-raising handler is fine')
 # silent refactors
 v('c07-s-rename-local','R-C07.1','utils/sql.py',"""        transaction = self._latest_transaction
 
